@@ -1618,8 +1618,8 @@ fn generate_all(rng: &mut Rng, tier: Tier, emit: &mut dyn FnMut(String)) {
         let n = 1 + rng.below(3);
         let pol = *rng.pick(&["def", "def", "down", "down", "fall"]);
         let idem = if i % 3 == 2 { 1 } else { 0 };
-        let kind = *rng.pick(&["exec", "exec", "batch", "batch", "query", "qvals", "qvals", "batchv", "batchv", "itere", "itere", "iterq", "itere"]);
-        let iter_kind = kind == "itere" || kind == "iterq";
+        let kind = *rng.pick(&["exec", "exec", "batch", "batch", "query", "qvals", "qvals", "batchv", "batchv", "itere", "itere", "iterq", "itere", "ctl"]);
+        let iter_kind = kind == "itere" || kind == "iterq" || kind == "ctl";
         let via = if i % 4 == 1 && !iter_kind && kind != "qvals" && kind != "batchv" { "caching" } else { "session" };
         // the consistency matters on the wire: the downgrading policy lowers ALL / EACH_QUORUM
         let cl = if pol == "def" && rng.chance(1, 8) {
@@ -1631,10 +1631,10 @@ fn generate_all(rng: &mut Rng, tier: Tier, emit: &mut dyn FnMut(String)) {
         };
         // where policy and consistency are configured (statement / session profile / statement's profile handle /
         // statement with decoys on both profiles)
-        let cfg = if via == "caching" { "stmt" } else { *rng.pick(&["stmt", "stmt", "profile", "handle", "both"]) };
+        let cfg = if via == "caching" || kind == "ctl" { "stmt" } else { *rng.pick(&["stmt", "stmt", "profile", "handle", "both"]) };
         let pages = 2 + rng.below(3);
         // a request timeout (statement- or profile-level) against an answer that takes 400 ms
-        let tmo = if via == "session" && rng.chance(1, 6) { Some((*rng.pick(&[100u64, 150, 1500]), *rng.pick(&["stmt", "profile"]))) } else { None };
+        let tmo = if via == "session" && kind != "ctl" && rng.chance(1, 6) { Some((*rng.pick(&[100u64, 150, 1500]), *rng.pick(&["stmt", "profile"]))) } else { None };
         let n_req = if tmo.is_some() { 2 } else { 3 + rng.below(3) };
         let mut scripts = Vec::new();
         for _ in 0..n_req {
@@ -1678,8 +1678,15 @@ fn generate_all(rng: &mut Rng, tier: Tier, emit: &mut dyn FnMut(String)) {
             }
             scripts.push(sc);
         }
+        // the same text executed by callers with DIFFERENT idempotence flags (a cache must not keep the first one's)
+        let idems = if via == "caching" || rng.chance(1, 4) {
+            format!(" idems={}", (0..scripts.len()).map(|_| if rng.bool() { '1' } else { '0' }).collect::<String>())
+        } else {
+            String::new()
+        };
         let extra = format!(
-            "{}{}",
+            "{}{}{}",
+            idems,
             if iter_kind { format!(" pages={}", pages) } else { String::new() },
             match tmo {
                 Some((t, at)) => format!(" tmo={} tmoat={}", t, at),
